@@ -189,7 +189,7 @@ Definition wake_one_recv (s : st) : st :=
   match first_waiting (fun f => getF f s) (arq s) with
   | Some (f, w) =>
       match getF f s with
-      | Some x => wake w (with_arq (remove_first f (arq s)) (setF f (set_state Success x) (mark_bad (negb (f_live x)) s)))
+      | Some x => mark_bad (negb (f_live x)) (wake w (with_arq (remove_first f (arq s)) (setF f (set_state Success x) s)))
       | None => s
       end
   | None => s
@@ -199,7 +199,7 @@ Definition wake_one_send (s : st) : st :=
   match first_waiting (fun f => getF f s) (asq s) with
   | Some (f, w) =>
       match getF f s with
-      | Some x => wake w (with_asq (remove_first f (asq s)) (setF f (set_state Success x) (mark_bad (negb (f_live x)) s)))
+      | Some x => mark_bad (negb (f_live x)) (wake w (with_asq (remove_first f (asq s)) (setF f (set_state Success x) s)))
       | None => s
       end
   | None => s
@@ -213,7 +213,7 @@ Fixpoint mark_all (new : wst) (l : list (N * N)) (s : st) : st :=
       match getF f s with
       | Some x =>
           if is_waiting (f_state x)
-          then mark_all new t (wake w (setF f (set_state new x) (mark_bad (negb (f_live x)) s)))
+          then mark_all new t (mark_bad (negb (f_live x)) (wake w (setF f (set_state new x) s)))
           else mark_all new t s
       | None => mark_all new t s
       end
@@ -270,7 +270,7 @@ Definition close_rx (s : st) : option st :=
                       match getF f s with
                       | Some x =>
                           if is_waiting (f_state x)
-                          then wake w (setF f (set_state Success x) (mark_bad (negb (f_live x)) s)) else s
+                          then mark_bad (negb (f_live x)) (wake w (setF f (set_state Success x) s)) else s
                       | None => s
                       end
                   | [] => s
